@@ -45,6 +45,7 @@ type KCase struct {
 		Qx      []int64   `json:"qx"`
 		Qy      []int64   `json:"qy"`
 		Exact   bool      `json:"exact"`
+		ExactY  bool      `json:"exacty"`
 	} `json:"e"`
 }
 
@@ -351,40 +352,50 @@ func (k *kctx) rb8(id string, kc *KCase) {
 		return
 	}
 	x, y := f32s(c.X, c.Den), f32s(c.Y, c.Den)
+	absMax := float64(c.A) / float64(c.Den)
 	k.guard(id, kc.C, "int8 index", func() {
 		got, ok := ix.add(k, x)
 		k.res.Checks++
-		if !ok {
+		if !ok || len(got) != len(x) {
 			k.fail(id, "read_back_i8", kc.C, "vector %v cannot be stored/read in an int8 index", x)
 			return
 		}
-		step := float64(c.A) / float64(c.Den) / 127
+		// what the index stores: int8 cosine indexes hold the quantised UNIT vector; every component read back must
+		// be an integer multiple q * AbsMax/127 with q one of the integers the specification admits (clipped to
+		// +-127 beyond the trained range, never wrapped)
+		step := absMax / 127
+		qx := make([]int64, len(got))
 		for i := range got {
-			want := float64(kc.E.Qx[i]) * step
-			slack := tol * (1 + math.Abs(want))
-			if !kc.E.Exact {
-				slack += step
-			}
-			if math.Abs(float64(got[i])-want) > slack {
-				k.fail(id, "read_back_i8", kc.C, "int8 index (AbsMax %v) returns %v for %v, one quantisation step gives %v * %v", float64(c.A)/float64(c.Den), got, x, kc.E.Qx, step)
-				break
+			qf := float64(got[i]) / step
+			qx[i] = int64(math.Round(qf))
+			if math.Abs(qf-float64(qx[i])) > 1e-3 || !inSet(qx[i], kc.E.Allowed[i]) {
+				k.fail(id, "read_back_i8", kc.C, "cosine/int8 index (AbsMax %v) returns %v for %v = %v steps; the quantised unit vector admits %v per component", absMax, got, x, qf, kc.E.Allowed)
+				return
 			}
 		}
-		if !kc.E.Exact {
+		if !kc.E.ExactY {
 			return
 		}
-		// distance on the compressed vectors = cosine distance of the quantised integer vectors
+		// distance on the compressed vectors: ComputeDistanceToVector quantises the raw query (Quantizer.Quantize, the
+		// raw-vector law) and returns the cosine distance between that and the integers the index really stores
 		d, err := ix.ix.ComputeDistanceToVector(ix.key(x), y)
 		k.res.Checks++
+		var dot, nx int64
+		for i := range qx {
+			dot += qx[i] * kc.E.Qy[i]
+			nx += qx[i] * qx[i]
+		}
 		want := 1.0
-		if kc.E.Nx != 0 && kc.E.Ny != 0 {
-			sim := float64(kc.E.Dot) / (math.Sqrt(float64(kc.E.Nx)) * math.Sqrt(float64(kc.E.Ny)))
+		if nx != 0 {
+			qn := math.Sqrt(float64(kc.E.Ny))
+			if kc.E.Ny == 0 {
+				qn = 1 // zero query: norm replaced by 1, dot 0
+			}
+			sim := float64(dot) / (qn * math.Sqrt(float64(nx)))
 			want = 1 - math.Max(-1, math.Min(1, sim))
-		} else if kc.E.Nx != 0 {
-			want = 1 // zero query: norm replaced by 1, dot 0
 		}
 		if err != nil || !close64(d, want) {
-			k.fail(id, "index_distance_i8", kc.C, "int8 index distance(stored %v, query %v) = %v (%v), cosine distance of the quantised vectors %v/%v = %v", x, y, d, err, kc.E.Qx, kc.E.Qy, want)
+			k.fail(id, "index_distance_i8", kc.C, "cosine/int8 index distance(stored %v = %v, query %v -> %v) = %v (%v), cosine distance of these integer vectors = %v", x, qx, y, kc.E.Qy, d, err, want)
 		}
 	})
 }
